@@ -14,6 +14,7 @@ import (
 	"github.com/33cn/chain33/common/address"
 	"github.com/33cn/chain33/common/crypto"
 	cty "github.com/33cn/chain33/system/dapp/coins/types"
+	mty "github.com/33cn/chain33/system/dapp/manage/types"
 	"github.com/33cn/chain33/types"
 	"verif/vnode"
 	"verif/vnode/treex"
@@ -58,6 +59,12 @@ func init() {
 
 // CfgEdit enables every local-index plugin and makes account A a super manager.
 func CfgEdit(s string) string { return cfgEdit(s, true) }
+
+// CfgEditFor returns the configuration edit with the mvcc plugin on or off (for processes that start
+// a node from a snapshot of an Env).
+func CfgEditFor(mvcc bool) func(string) string {
+	return func(s string) string { return cfgEdit(s, mvcc) }
+}
 
 func cfgEdit(s string, mvcc bool) string {
 	s = strings.Replace(s, "[exec]\nenableStat=false\nenableMVCC=false\n", fmt.Sprintf("[exec]\nenableStat=true\nenableMVCC=%v\nenableAddrFeeIndex=true\n", mvcc), 1)
@@ -240,6 +247,22 @@ func (e *Env) Manage(from int, key, op, value string) *types.Transaction {
 		panic("manage executor type not registered")
 	}
 	tx, err := ety.Create("Modify", &types.ModifyConfig{Key: key, Op: op, Value: value})
+	if err != nil {
+		panic(err)
+	}
+	tx.Execer = []byte("manage")
+	tx.To = address.ExecAddress("manage")
+	return e.finish(tx, from)
+}
+
+// ManageApply builds a signed manage/Apply transaction (a configuration proposal: it creates a row of
+// the manage executor's local table, removed through the executor's rollback log).
+func (e *Env) ManageApply(from int, key, op, value string) *types.Transaction {
+	ety := types.LoadExecutorType("manage")
+	if ety == nil {
+		panic("manage executor type not registered")
+	}
+	tx, err := ety.Create("Apply", &mty.ApplyConfig{Config: &types.ModifyConfig{Key: key, Op: op, Value: value}})
 	if err != nil {
 		panic(err)
 	}
